@@ -153,6 +153,12 @@ package client
 //@ requires wheld(o.rpcMutex) == 0 && rheld(o.rpcMutex) == 0
 //@ at call sync.(*WaitGroup).Wait requires wheld(o.rpcMutex) == 0 && rheld(o.rpcMutex) == 0
 
+// update3 (C18): Monitor() holds monitorsMutex while it waits for the cache
+// lock, so a notification handler must not wait for monitorsMutex while it
+// still holds the cache lock (as reader or writer).
+//@ func (*ovsdbClient).update3 group lockorder
+//@ at call sync.(*Mutex).Lock requires rheld(db.cacheMutex) == old(rheld(db.cacheMutex)) && wheld(db.cacheMutex) == old(wheld(db.cacheMutex))
+
 // monitor (C16): a restarted monitor_cond_since asks for the changes since its
 // last transaction only when it is the only monitor; with several monitors the
 // cache was purged and every reply must carry the complete contents.
